@@ -9,6 +9,9 @@ pub mod s_hier;
 pub mod s_rules;
 pub mod ir;
 pub mod s_dp;
+pub mod s_fn;
+pub mod s_inj;
+pub mod s_filter;
 
 use common::*;
 use std::io::{BufRead, Write};
@@ -23,6 +26,12 @@ fn streams() -> Vec<(&'static str, GenFn, EvalFn)> {
         ("hier", s_hier::gen_hier, s_hier::eval_hier),
         ("scope", s_hier::gen_scope, s_hier::eval_scope),
         ("rules", s_rules::gen, s_rules::eval),
+        ("inj", s_inj::gen, s_inj::eval),
+        ("ofint", s_inj::gen_ofint, s_inj::eval_ofint),
+        ("filter", s_filter::gen, s_filter::eval),
+        ("filterx", s_filter::genx, s_filter::evalx),
+        ("fn", s_fn::gen, s_fn::eval),
+        ("fnimg", s_fn::gen_img, s_fn::eval_img),
         ("dpevent", s_dp::gen_event_case, s_dp::eval_event_case),
         ("dpquery", s_dp::gen_query, s_dp::eval_query),
     ]
